@@ -13,6 +13,11 @@ GUARD_EXCEPTIONS = {
 }
 
 
+def is_random_state(rt):
+    return ('std::collections::hash::map::HashMap<' in rt or 'std::collections::hash::set::HashSet<' in rt or 'std::collections::HashMap<' in rt or 'std::collections::HashSet<' in rt) \
+        and 'Fx' not in rt and 'BuildHasherDefault' not in rt
+
+
 def is_sched(n):
     q = T.callee(n) or ''
     return any(s in q for s in SCHED)
@@ -51,8 +56,7 @@ def run(chk):
                 for n in T.walk(fn['body']):
                     if n.get('k') == 'MCall' and n['n'] in ITER:
                         rt = types[n['rt']] or ''
-                        if ('std::collections::hash::map::HashMap<' in rt or 'std::collections::hash::set::HashSet<' in rt or 'std::collections::HashMap<' in rt or 'std::collections::HashSet<' in rt) \
-                                and 'Fx' not in rt and 'BuildHasherDefault' not in rt:
+                        if is_random_state(rt):
                             n_iter += 1
                             chk.bad('C19-R2', where, 'iter:%s' % T.show(n['r']), '%s iterates `%s` of type %s: the order depends on the per-process random hash seed' % (where, T.show(n['r']), rt[:80]),
                                     relfile, n['l'])
@@ -85,6 +89,10 @@ def run(chk):
                                                 (where, name, (types[st['t']] or '')[:60], T.show(hit)[:50]), relfile, hit['l'])
                                 else:
                                     chk.ok('C19-R3', (where, name, st['l']))
+    # positive control for the zero-expected rule R2: the type predicate must recognise a RandomState map
+    ctl = ['std::collections::HashMap<alloc::string::String, usize>', 'std::collections::hash::map::HashMap<u8, u8>']
+    neg = ['std::collections::HashMap<Str, usize, core::hash::BuildHasherDefault<rustc_hash::FxHasher>>', 'erg_common::dict::Dict<Str, usize>']
+    chk.need(all(is_random_state(t) for t in ctl) and not any(is_random_state(t) for t in neg), 'C19-R2 positive control failed: the RandomState predicate no longer separates std maps from Fx maps')
     if n_iter == 0:
         chk.ok('C19-R2', 'none', sample='no iteration over a RandomState-hashed std collection in erg_common / erg_parser / erg_compiler')
     chk.floor('named lock-guard bindings examined', n_lets, 12)
